@@ -1334,6 +1334,11 @@ class VectorImpl : public VectorDestr<T, Alloc, SizeType, WithInlineElements, Gr
       SizeType nElemsToShift = static_cast<SizeType>(this->size() - (pos - this->begin()));
       if (nElemsToShift == 0) {
         std::uninitialized_fill_n(pos, count, newV);
+      } else if (!(std::is_nothrow_copy_constructible<T>::value && std::is_nothrow_copy_assignable<T>::value)) {
+        // A copy may throw: construct the new elements past the end first (nothing is modified if that fails),
+        // then rotate them into place (element moves are assumed not to throw).
+        std::uninitialized_fill_n(end(), count, newV);
+        std::rotate(pos, end(), end() + count);
       } else if (isShiftedBy(std::addressof(newV), pos)) {
         // 'v' is one of our elements at or after 'pos': it is about to be shifted, copy it first
         T copyV(newV);
@@ -1366,8 +1371,14 @@ class VectorImpl : public VectorDestr<T, Alloc, SizeType, WithInlineElements, Gr
     if (count > 0) {
       pos = this->adjustCapacity(static_cast<uintmax_t>(this->size()) + count, position);
       SizeType nElemsToShift = static_cast<SizeType>(this->size() - (pos - this->begin()));
+      using ItRef = typename std::iterator_traits<ForwardIt>::reference;
       if (nElemsToShift == 0) {
         amc::uninitialized_copy_n(first, count, pos);
+      } else if (!(std::is_nothrow_constructible<T, ItRef>::value && std::is_nothrow_assignable<T &, ItRef>::value)) {
+        // A copy may throw: construct the new elements past the end first (nothing is modified if that fails),
+        // then rotate them into place (element moves are assumed not to throw).
+        amc::uninitialized_copy_n(first, count, end());
+        std::rotate(pos, end(), end() + count);
       } else {
         shift_right(pos, nElemsToShift, static_cast<SizeType>(count));
         copy_after_shift(first, nElemsToShift, static_cast<SizeType>(count), pos);
